@@ -106,6 +106,8 @@ pub fn run(ctx: &'static Ctx) {
         bfs(ctx, Space { names: vec!["A", "M", "Z"], per_struct: 2, kinds: 2, label: "bfs-graph-3x2".into() });
         bfs(ctx, Space { names: vec!["A", "M", "Z"], per_struct: 3, kinds: 1, label: "bfs-graph-3x3-arrays".into() });
         bfs(ctx, Space { names: vec!["A", "K", "M", "Z"], per_struct: 2, kinds: 1, label: "bfs-graph-4x2-arrays".into() });
+        bfs(ctx, Space { names: vec!["A", "B", "K", "M", "Z"], per_struct: 1, kinds: 2, label: "bfs-graph-5x1".into() });
+        bfs(ctx, Space { names: vec!["A", "M"], per_struct: 4, kinds: 2, label: "bfs-graph-2x4".into() });
     }
     let vc = value_cases();
     ctx.sweep("values", "every atomic type (uint/int 8..256, bytes1..32, bool, address, string, bytes) x boundary values x spellings; arrays T[], T[k], T[][], T[2][3], T[][2], T[3][] of 7 atoms and a struct; nested structs", vc.len() as u64, |i| {
